@@ -69,6 +69,10 @@ type MTarget struct {
 	// MemParam: the function works on reference slices without a struct that owns the backing
 	// array (typed.Uint16Ref.Update): the array is an explicit first parameter `mem` and result.
 	MemParam bool
+	// NilRecZero: a nil POINTER to a represented struct in a value position (`return nil, err`)
+	// is the zero record (for constructors that return (*T, error): the value is meaningless
+	// when the error is not nil, and callers test the error first).
+	NilRecZero bool
 }
 
 // MFile: one generated file.
@@ -351,12 +355,8 @@ func (g *mgen) prepareStruct(r *StructRep) {
 		case "ref":
 			r.fields = append(r.fields, fieldRep{f.Name(), "ref", gty{kind: "ref"}})
 		case "":
-			if f.Embedded() {
-				// an embedded (pointer to a) REPRESENTED struct is an ordinary field named after the
-				// type; promoted fields / methods are resolved through it (promotedSteps)
-				if et, ok := g.tryGtype(f.Type()); !ok || et.kind != "rec" {
-					failf("%s: embedded field %s is outside the subset (ignore it)", r.Type, f.Name())
-				}
+			if f.Embedded() && !r.embedOK(f.Name()) {
+				failf("%s: embedded field %s is outside the subset (ignore it)", r.Type, f.Name())
 			}
 			r.fields = append(r.fields, fieldRep{f.Name(), "", g.gtype(f.Type(), r.Type+"."+f.Name())})
 		default:
@@ -370,72 +370,16 @@ func (g *mgen) prepareStruct(r *StructRep) {
 	}
 }
 
-// tryGtype: gtype without failing
-func (g *mgen) tryGtype(tp types.Type) (res gty, ok bool) {
-	defer func() {
-		if r := recover(); r != nil {
-			if _, isf := r.(failure); isf {
-				ok = false
-				return
-			}
-			panic(r)
-		}
-	}()
-	return g.gtype(tp, ""), true
-}
-
-// promotedSteps: the field steps of a selection x.f whose field f is promoted through embedded
-// structs (sel.Index() = [i0, ..., ik]): every struct on the way must be represented.
-func (c *mctx) promotedSteps(x *ast.SelectorExpr, sel *types.Selection) []pathStep {
-	bt := c.tyOf(x.X)
-	if bt.kind != "rec" {
-		failf("%s: field of %s", c.pos(x), bt.kind)
-	}
-	rec := bt.rec
-	var steps []pathStep
-	idx := sel.Index()
-	for n, i := range idx {
-		if i >= rec.st.NumFields() {
-			failf("%s: promoted field %q is outside the subset", c.pos(x), c.src(x))
-		}
-		gf := rec.st.Field(i)
-		f := rec.field(gf.Name())
-		if f == nil {
-			failf("%s: field %s.%s is not represented", c.pos(x), rec.Type, gf.Name())
-		}
-		steps = append(steps, pathStep{rec, f})
-		if n < len(idx)-1 {
-			if f.ty.kind != "rec" {
-				failf("%s: promoted field %q is outside the subset", c.pos(x), c.src(x))
-			}
-			rec = f.ty.rec
+// embedOK: an embedded field is represented (as an ordinary field named after its type) only
+// when the configuration names it in Only; selectors of promoted FIELDS are then written out
+// as the field path (mctx.path).  Promoted methods stay outside the subset.
+func (r *StructRep) embedOK(name string) bool {
+	for _, n := range r.Only {
+		if n == name {
+			return true
 		}
 	}
-	return steps
-}
-
-// promotedRecv: the receiver of a call x.m() whose method m is promoted through embedded
-// structs: the Gallina term of the embedded object (all index steps but the last are fields).
-func (c *mctx) promotedRecv(x *ast.SelectorExpr, sel *types.Selection) string {
-	bt := c.tyOf(x.X)
-	if bt.kind != "rec" {
-		failf("%s: call of promoted method %q is outside the subset", c.pos(x), c.src(x))
-	}
-	rec := bt.rec
-	s := c.expr(x.X)
-	idx := sel.Index()
-	for _, i := range idx[:len(idx)-1] {
-		if i >= rec.st.NumFields() {
-			failf("%s: call of promoted method %q is outside the subset", c.pos(x), c.src(x))
-		}
-		f := rec.field(rec.st.Field(i).Name())
-		if f == nil || f.ty.kind != "rec" {
-			failf("%s: call of promoted method %q: embedded field %s.%s is not represented", c.pos(x), c.src(x), rec.Type, rec.st.Field(i).Name())
-		}
-		s = fmt.Sprintf("(%s_%s %s)", rec.name, f.name, s)
-		rec = f.ty.rec
-	}
-	return s
+	return false
 }
 
 func (r *StructRep) field(name string) *fieldRep {
@@ -714,17 +658,18 @@ type bind struct {
 }
 
 type mctx struct {
-	g      *mgen
-	t      *translator
-	tg     *MTarget
-	fi     *funcInfo
-	info   *types.Info
-	muts   []mvar // objects returned after the results
-	mem    bool   // explicit backing-array parameter `mem`
-	resTy  []gty
-	binds  []bind
-	tmp    int
-	inLoop []string // loop-state tuple while translating a loop body (nil outside)
+	g       *mgen
+	t       *translator
+	tg      *MTarget
+	fi      *funcInfo
+	info    *types.Info
+	muts    []mvar // objects returned after the results
+	mem     bool   // explicit backing-array parameter `mem`
+	resTy   []gty
+	binds   []bind
+	tmp     int
+	inLoop  []string      // loop-state tuple while translating a loop body (nil outside)
+	loopEnd func() string // what the end of the innermost loop body yields (target of `continue`)
 	// loopRet: the loop being translated contains `return` (go_for_ret): the body yields
 	// inl state | inr result
 	loopRet bool
@@ -775,10 +720,6 @@ func (c *mctx) tyOf(e ast.Expr) gty {
 					return ref
 				}
 			}
-		} else if ok && sel.Kind() == types.FieldVal {
-			if st := c.promotedSteps(x, sel); st[len(st)-1].field.kind == "ref" {
-				return ref
-			}
 		}
 	case *ast.SliceExpr:
 		if c.tyOf(x.X).kind == "ref" {
@@ -824,6 +765,9 @@ func (c *mctx) exprAs(e ast.Expr, want gty) string {
 	if isNilIdent(e) {
 		switch want.kind {
 		case "bytes", "ref", "err", "sset", "list":
+			return want.zero()
+		}
+		if want.kind == "rec" && c.tg.NilRecZero {
 			return want.zero()
 		}
 		failf("%s: nil where a %s is expected", c.pos(e), want.kind)
@@ -1009,7 +953,27 @@ func (c *mctx) path(e ast.Expr) (string, []pathStep, bool) {
 			return "", nil, false
 		}
 		if len(sel.Index()) != 1 {
-			return root, append(steps, c.promotedSteps(x, sel)...), true
+			// promoted field: the path through the embedded fields, each of which must be
+			// represented (StructRep.embedOK)
+			cur := c.tyOf(x.X)
+			tp := c.info.Types[x.X].Type
+			for _, fi := range sel.Index() {
+				if pt, ok := tp.Underlying().(*types.Pointer); ok {
+					tp = pt.Elem()
+				}
+				st, ok := tp.Underlying().(*types.Struct)
+				if !ok || cur.kind != "rec" {
+					failf("%s: promoted field %q is outside the subset", c.pos(e), c.src(e))
+				}
+				fld := st.Field(fi)
+				f := cur.rec.field(fld.Name())
+				if f == nil {
+					failf("%s: promoted field %q: %s.%s is not represented", c.pos(e), c.src(e), cur.rec.Type, fld.Name())
+				}
+				steps = append(steps, pathStep{cur.rec, f})
+				tp, cur = fld.Type(), f.ty
+			}
+			return root, steps, true
 		}
 		bt := c.tyOf(x.X)
 		if bt.kind != "rec" {
@@ -1505,7 +1469,7 @@ func (c *mctx) callN(x *ast.CallExpr) []string {
 	// resolved callee
 	var fn *types.Func
 	var recvExpr ast.Expr
-	promotedRecv := ""
+	recvStr := ""
 	switch f := x.Fun.(type) {
 	case *ast.Ident:
 		fn, _ = c.info.Uses[f].(*types.Func)
@@ -1514,7 +1478,32 @@ func (c *mctx) callN(x *ast.CallExpr) []string {
 		if fn != nil && fn.Type().(*types.Signature).Recv() != nil {
 			recvExpr = f.X
 			if sel, ok := c.info.Selections[f]; ok && len(sel.Index()) != 1 {
-				promotedRecv = c.promotedRecv(f, sel)
+				// promoted method: the receiver is the embedded field (path through represented
+				// embedded fields, StructRep.embedOK); only for callees that do not mutate it
+				root, steps, ok := c.path(f.X)
+				if !ok {
+					failf("%s: call of promoted method %q is outside the subset", c.pos(e), c.src(e))
+				}
+				cur := c.tyOf(f.X)
+				tp := c.info.Types[f.X].Type
+				idx := sel.Index()
+				for _, fi := range idx[:len(idx)-1] {
+					if pt, ok := tp.Underlying().(*types.Pointer); ok {
+						tp = pt.Elem()
+					}
+					st, ok := tp.Underlying().(*types.Struct)
+					if !ok || cur.kind != "rec" {
+						failf("%s: call of promoted method %q is outside the subset", c.pos(e), c.src(e))
+					}
+					fld := st.Field(fi)
+					fr := cur.rec.field(fld.Name())
+					if fr == nil {
+						failf("%s: promoted method %q: %s.%s is not represented", c.pos(e), c.src(e), cur.rec.Type, fld.Name())
+					}
+					steps = append(steps, pathStep{cur.rec, fr})
+					tp, cur = fld.Type(), fr.ty
+				}
+				recvStr = pathGet(mIdent(root), steps)
 			}
 		}
 	}
@@ -1543,8 +1532,13 @@ func (c *mctx) callN(x *ast.CallExpr) []string {
 		mem, _ := c.memOwner(e)
 		args = append(args, mem)
 	}
-	if promotedRecv != "" {
-		args = append(args, promotedRecv)
+	if recvStr != "" {
+		for _, m := range em.muts {
+			if m == "recv" {
+				failf("%s: promoted method %q mutates its receiver: outside the subset", c.pos(e), c.src(e))
+			}
+		}
+		args = append(args, recvStr)
 	} else if recvExpr != nil {
 		args = append(args, c.expr(recvExpr))
 	}
@@ -1575,9 +1569,6 @@ func (c *mctx) callN(x *ast.CallExpr) []string {
 	for _, m := range em.muts {
 		var ae ast.Expr
 		if m == "recv" {
-			if promotedRecv != "" {
-				failf("%s: promoted method %s mutates its receiver: outside the subset", c.pos(e), key)
-			}
 			ae = recvExpr
 		} else {
 			var idx int
@@ -1755,6 +1746,12 @@ func (c *mctx) stmts(list []ast.Stmt, k func() string) string {
 		return c.forStmt(x, tail)
 	case *ast.RangeStmt:
 		return c.rangeStmt(x, tail)
+	case *ast.BranchStmt:
+		// `continue` of the innermost counted / range loop: the rest of the body is skipped, the
+		// loop goes on with the state as it is now
+		if x.Tok == token.CONTINUE && x.Label == nil && c.inLoop != nil && c.loopEnd != nil {
+			return c.loopEnd()
+		}
 	}
 	failf("%s: unsupported statement %q in %s", c.pos(s), c.src(s), c.tg.Func)
 	return ""
@@ -2126,6 +2123,9 @@ func (c *mctx) loopState(body *ast.BlockStmt, loopVars map[types.Object]bool, ha
 		case *ast.IncDecStmt:
 			add(rootIdent(x.X))
 		case *ast.BranchStmt:
+			if x.Tok == token.CONTINUE && x.Label == nil {
+				return true // = the end of the loop body (stmts: the loop's end continuation)
+			}
 			failf("%s: %s inside a loop is outside the subset", c.pos(n), x.Tok)
 		case *ast.ReturnStmt:
 			if len(hasRet) == 0 || c.inLoop != nil {
@@ -2239,11 +2239,14 @@ func (c *mctx) loopBody(body *ast.BlockStmt, state []string, ret ...bool) string
 		c.inLoop = []string{}
 	}
 	c.loopRet = len(ret) > 0 && ret[0]
-	defer func() { c.inLoop, c.loopRet = saved, savedRet }()
+	savedEnd := c.loopEnd
+	defer func() { c.inLoop, c.loopRet, c.loopEnd = saved, savedRet, savedEnd }()
 	if c.loopRet {
-		return c.stmts(body.List, func() string { return "Some (inl " + tuple(state) + ")" })
+		c.loopEnd = func() string { return "Some (inl " + tuple(state) + ")" }
+	} else {
+		c.loopEnd = func() string { return "Some " + tuple(state) }
 	}
-	return c.stmts(body.List, func() string { return "Some " + tuple(state) })
+	return c.stmts(body.List, c.loopEnd)
 }
 
 func (c *mctx) forStmt(x *ast.ForStmt, tail func() string) string {
